@@ -664,6 +664,7 @@ def run_case(case, proj=False):
     unreg_calls = []  # [t, svc]: explicit async_unregister_service calls (never awaited by this harness)
     close_unregs = []  # [t, svc, host]: services still registered when their host is closed (withdrawn by async_close itself)
     net.refused = []
+    net.dlv_seq = 0
     ignored = []  # [position in the raw trace, t, datagram, host]: deliveries the receiving listener did not parse
     drop = case["net"].get("drop")
     drop_dgram = None
@@ -725,7 +726,8 @@ def run_case(case, proj=False):
         tr = h.ltransport if (mc and h.ltransport is not None) else h.by_fam.get(fam)
         if tr is None or tr.closed or hstate[h.idx] != "up":
             return
-        dlv_ev = [now(), "dlv", d, src.idx, h.idx, 1 if mc else 0, items]
+        net.dlv_seq += 1
+        dlv_ev = [now(), "dlv", d, src.idx, h.idx, 1 if mc else 0, items, net.dlv_seq]  # (the 8th field orders deliveries and lookups within a ms)
         trace.append(dlv_ev)
         before = tr.protocol.last_message
         tr.protocol.datagram_received(data, (src.ip, src.port) if fam == 4 else (src.ip6, src.port, 0, SCOPE))
@@ -786,7 +788,7 @@ def run_case(case, proj=False):
             ok = await info.async_request(zc, 3000)
         except Exception as ex:  # a closed instance raises; judged by the oracle only when the host stayed up
             ok = "exc:" + type(ex).__name__
-        lookups.append({"b": b, "s": s, "t0": t0, "t1": now(), "ok": ok, "port": info.port, "server": info.server,
+        lookups.append({"b": b, "s": s, "t0": t0, "t1": now(), "seq1": net.dlv_seq, "ok": ok, "port": info.port, "server": info.server,
                         "txt": (info.text or b"").hex(), "addrs": sorted(a.hex() for a in all_addresses(info))})
 
     def make_info(i, ver):
@@ -1588,7 +1590,13 @@ def oracle(case, obs):
 UPDATE_GRACE_MS = 1000
 
 
-def records_seen(obs, host, t_hi):
+def _dlv_by(e, t_hi, seq_hi=None):
+    """was delivery e made by t_hi -- and, within that millisecond, before the lookup that returned after delivery number seq_hi?
+    (thorough-tier alarm gen/10/drop142: the datagram with the TXT was processed in the millisecond the lookup returned, AFTER it)"""
+    return e[0] <= t_hi and (seq_hi is None or len(e) < 8 or e[7] <= seq_hi)
+
+
+def records_seen(obs, host, t_hi, seq_hi=None):
     """(t, record) for every record of every response datagram handed to `host` up to t_hi -- from the harness's own delivery
     log and the raw datagrams, not from the implementation's cache"""
     from zeroconf import DNSIncoming
@@ -1596,7 +1604,7 @@ def records_seen(obs, host, t_hi):
     out = []
     memo = obs.setdefault("_parsed", {})
     for e in obs["trace"]:
-        if e[1] == "dlv" and e[4] == host and e[0] <= t_hi:
+        if e[1] == "dlv" and e[4] == host and _dlv_by(e, t_hi, seq_hi):
             recs = memo.get(e[2])
             if recs is None:
                 m = DNSIncoming(bytes.fromhex(obs["datagrams"][e[2]][4]))
@@ -1605,7 +1613,7 @@ def records_seen(obs, host, t_hi):
     return out
 
 
-def shadow_cache(obs, host, name, t_hi):
+def shadow_cache(obs, host, name, t_hi, seq_hi=None):
     """which SRV / TXT records of instance `name` are alive in `host`'s cache at t_hi, and when each was last received -- computed
     from the deliveries the host's listener PROCESSED (`obs["ignored"]` left out), with the cache rules of RFC 6762 10.2 as the library
     implements them: a record is refreshed in place when it arrives again; a record with TTL 0 is removed; when a datagram carries a
@@ -1618,7 +1626,7 @@ def shadow_cache(obs, host, name, t_hi):
     cache = {}  # key -> [last received, expires at]
     memo = obs.setdefault("_parsed", {})
     for pos, e in enumerate(obs["trace"]):
-        if e[1] != "dlv" or e[4] != host or e[0] > t_hi or pos in ign:
+        if e[1] != "dlv" or e[4] != host or not _dlv_by(e, t_hi, seq_hi) or pos in ign:
             continue
         recs = memo.get(e[2])
         if recs is None:
@@ -1669,7 +1677,7 @@ def advertised_by_others(case, obs, s, server, t_hi):
     return set(known)
 
 
-def shadow_addresses(obs, host, server, t_hi):
+def shadow_addresses(obs, host, server, t_hi, seq_hi=None):
     """`shadow_cache` for the address records of host name `server`: {address hex: last received} of the records alive in `host`'s
     cache at t_hi by the cache rules applied to the deliveries its listener PROCESSED (flush per record type A / AAAA)"""
     from zeroconf import DNSIncoming
@@ -1679,7 +1687,7 @@ def shadow_addresses(obs, host, server, t_hi):
     cache = {}
     memo = obs.setdefault("_parsed", {})
     for pos, e in enumerate(obs["trace"]):
-        if e[1] != "dlv" or e[4] != host or e[0] > t_hi or pos in ign:
+        if e[1] != "dlv" or e[4] != host or not _dlv_by(e, t_hi, seq_hi) or pos in ign:
             continue
         recs = memo.get(e[2])
         if recs is None:
@@ -1734,7 +1742,7 @@ def lookup_wrong_cause(case, obs, lk, vs, allv):
             last = {}
             ign = {x[0] for x in obs.get("ignored", [])}
             for pos, e in enumerate(obs["trace"]):
-                if e[1] == "dlv" and e[4] == bh and e[0] <= lk["t1"] and pos not in ign:
+                if e[1] == "dlv" and e[4] == bh and _dlv_by(e, lk["t1"], lk.get("seq1")) and pos not in ign:
                     m = DNSIncoming(bytes.fromhex(obs["datagrams"][e[2]][4]))
                     if m.valid and not m.is_query():
                         for r in m.answers():
@@ -1752,7 +1760,7 @@ def lookup_wrong_cause(case, obs, lk, vs, allv):
         # skips the flush rule for address records is not covered: the shadow cache has flushed them
         own_old = {ad for x in allv for ad in x["addrs"]}
         extra = set(lk["addrs"]) - {ad for x in cur_ok for ad in x["addrs"]}
-        alive = shadow_addresses(obs, bh, (lk["server"] or "").lower(), lk["t1"])
+        alive = shadow_addresses(obs, bh, (lk["server"] or "").lower(), lk["t1"], lk.get("seq1"))
         if extra and extra <= own_old and all(ad in alive for ad in extra):
             return "withdrawn-address-outlives-the-flush-rule"
         return ""
@@ -1769,7 +1777,7 @@ def lookup_wrong_cause(case, obs, lk, vs, allv):
         cur = vs[-1] if vs else None
         if cur is None:
             return ""
-        alive = shadow_cache(obs, bh, name, lk["t1"])
+        alive = shadow_cache(obs, bh, name, lk["t1"], lk.get("seq1"))
         need = []
         if allv[k]["port"] != cur["port"]:
             need.append((("srv", allv[k]["port"]), ("srv", cur["port"])))
@@ -1780,7 +1788,7 @@ def lookup_wrong_cause(case, obs, lk, vs, allv):
         return ""
     if lk["txt"] == "" and all(x["txt"] for x in allv) and any(
             x["port"] == lk["port"] and x["server"] == lk["server"] for x in vs):
-        held_txt = [(t, r) for (t, r) in records_seen(obs, bh, lk["t1"]) if isinstance(r, DNSText) and r.name.lower() == name]
+        held_txt = [(t, r) for (t, r) in records_seen(obs, bh, lk["t1"], lk.get("seq1")) if isinstance(r, DNSText) and r.name.lower() == name]
         # the last TXT handed over decides (a goodbye or an expired one leaves the host without a TXT)
         if not held_txt or held_txt[-1][1].ttl == 0 or held_txt[-1][0] + 1000 * held_txt[-1][1].ttl <= lk["t1"]:
             # F1's input class does NOT include an announcer that orders its own message so that a lookup completes before the TXT
@@ -1788,7 +1796,7 @@ def lookup_wrong_cause(case, obs, lk, vs, allv):
             # that -- whatever `packets()` splits -- the datagram that completes {SRV, address} never precedes the TXT's datagram.
             # When the host was handed the SRV and the address from such a message whose TXT sits in a LATER datagram, the empty
             # TXT is the announcer's doing: a fresh violation (seeded defect C07-w5-seed2), not the known finding
-            why = announcement_completes_before_its_txt(case, obs, lk["s"], bh, lk["t1"])
+            why = announcement_completes_before_its_txt(case, obs, lk["s"], bh, lk["t1"], lk.get("seq1"))
             if why:
                 return "announcement-completes-before-its-txt"
             # ... and INCLUDES only what the link, the TTLs or a split the unchanged record order can produce did to a TXT the owner
@@ -1821,7 +1829,7 @@ def f1_input_class(case, obs, lk, host, name, held_txt):
     if held_txt and as_registered(held_txt[-1][1]) and held_txt[-1][0] + 1000 * held_txt[-1][1].ttl <= lk["t1"]:
         return True
     ign = {x[0] for x in obs.get("ignored", [])}
-    processed = {e[2] for pos, e in enumerate(obs["trace"]) if e[1] == "dlv" and e[4] == host and e[0] <= lk["t1"] and pos not in ign}
+    processed = {e[2] for pos, e in enumerate(obs["trace"]) if e[1] == "dlv" and e[4] == host and _dlv_by(e, lk["t1"], lk.get("seq1")) and pos not in ign}
     owner = sv["owner"]
     trains = {}
     for e in obs["trace"]:
@@ -1843,7 +1851,7 @@ def f1_input_class(case, obs, lk, host, name, held_txt):
     return False
 
 
-def announcement_completes_before_its_txt(case, obs, s, host, t_hi):
+def announcement_completes_before_its_txt(case, obs, s, host, t_hi, seq_hi=None):
     """is there a broadcast message of service s (the response datagrams its owner multicast at one instant, SRV(s) in the ANSWER
     section of one of them) in which the TXT of s sits in a later datagram than both the SRV and the first address record of the SRV
     target, and of which the SRV and address datagrams had been handed to `host` by t_hi?  -> [send time, srv, addr, txt datagram] or None"""
@@ -1852,7 +1860,7 @@ def announcement_completes_before_its_txt(case, obs, s, host, t_hi):
 
     name = svc_name(s, case["svcs"][s]["ty"]).lower()
     owner = case["svcs"][s]["owner"]
-    got = {e[2] for e in obs["trace"] if e[1] == "dlv" and e[4] == host and e[0] <= t_hi}
+    got = {e[2] for e in obs["trace"] if e[1] == "dlv" and e[4] == host and _dlv_by(e, t_hi, seq_hi)}
     trains = {}
     for e in obs["trace"]:
         if e[1] == "send" and e[2] == owner and e[4] is None and e[0] <= t_hi:
